@@ -416,10 +416,40 @@ func evalC09(sc *Scenario, sim *Sim) ([]Violation, bool, string) {
 			add("check-agrees", "after-format", fmt.Sprintf("`format --check` after format exited %d but a further format changes=%v", c1.Exit, !bytes.Equal(b1, b2)), string(c1.Stdout)+string(c1.Stderr))
 		}
 	}
-	if f.Canon != "" && string(b1) != f.Canon {
+	if f.Canon != "" && !canonEqual(string(b1), f.Canon) {
 		add("canonical-layout", "layout", "formatted file differs from the reference rendering of the canonical layout", fmt.Sprintf("got:      %q\nexpected: %q", clip(b1), clip([]byte(f.Canon))))
 	}
 	return viol, true, fmt.Sprintf("%x", sc.World.Hash())
+}
+
+// canonEqual compares a formatted file with the reference rendering. The statement fixes indentation, the spacing after
+// markers and keywords, the header and the end of the file; it does not say whether runs of blanks INSIDE a directive's
+// argument list or after a marker's name are kept or collapsed, so both are accepted there (idempotence is judged separately).
+func canonEqual(got, want string) bool {
+	if got == want {
+		return true
+	}
+	gl, wl := strings.Split(got, "\n"), strings.Split(want, "\n")
+	if len(gl) != len(wl) {
+		return false
+	}
+	norm := func(l string) string {
+		t := strings.TrimLeft(l, " ")
+		ind := l[:len(l)-len(t)]
+		switch {
+		case strings.HasPrefix(t, "##!> "):
+			return ind + strings.Join(strings.Fields(t), " ")
+		case strings.HasPrefix(t, "##!="):
+			return ind + strings.TrimRight(t, " \t")
+		}
+		return l
+	}
+	for i := range gl {
+		if norm(gl[i]) != norm(wl[i]) {
+			return false
+		}
+	}
+	return true
 }
 
 // stripLines returns the sequence of lines with all white space removed and trailing blank lines dropped.
